@@ -45,6 +45,21 @@ ROUND_TEXT = {
         "(vectorised or chunked) path; keyword versus positional spelling of the same call; a conversion chain through three "
         "classes (A -> B -> C versus A -> C); behaviour that depends on the ORDER of elements in a sequence or on an element being "
         "repeated (the same object twice in a list); negative zero and denormal values inside the stated range."),
+    7: ("This is a SEVENTH round.  Earlier rounds already produced slips in the main lines and in the rarely reached arms of the "
+        "anchored functions (options, multi-valued arms, symbolic arms, thresholds, error arms), in-place edits, caches, shared "
+        "arrays, dtype handling, unusual argument objects, truthy flags, repeated values, same-object operands, copies, negative "
+        "zero, narrow element types.  Find something those do not cover.  Directions that have hardly been used: (1) ACCURACY -- "
+        "replace a formula by an algebraically equal one that loses digits only in a band of the stated input range (near but "
+        "not at a boundary, at the largest or smallest magnitudes, for particular axis directions, after many compositions), so "
+        "that the result stays within the tolerance of the existing tests but leaves the tolerance the property states; "
+        "(2) ORDER AND HISTORY -- a result that depends on what was called before (memoisation keyed on id() or on a rounded "
+        "value, a module-level scratch buffer, a class attribute used as a default, NumPy error-state / print-option / random-"
+        "state changes that leak out of a function); (3) INTERPLAY -- two public functions that are each still correct but no "
+        "longer agree with one another in the way the property demands (a convention changed consistently inside one route "
+        "only: sign, hemisphere, axis order, frame, units); (4) PARTIAL APPLICATION -- a change that is right for the rotation "
+        "part and wrong for the translation part, right for the scalar part and wrong for the vector part, right for the "
+        "first and wrong for a later value of a sequence, right in 3D and wrong in 2D; (5) the exception contract -- the "
+        "property says 'raises' or names an exception type: make it return, or raise another type, for one class of inputs."),
 }
 
 HUNT_TEXT = '''ALSO, BEFORE the mutants (about a third of your effort): hunt for inputs for which the UNMODIFIED tree already violates the property.  Read the statement and the quantifier literally and probe its corners systematically with small scripts: every class and call form it names, the extremes of the stated ranges, exact special values, multi-valued objects, every option value, both units, documented aliases, sequences of operations on one object.  Write what you find to {wt}/bughunt.md: for each violation a two-line reproduction, the value obtained and the value the property requires; if you find none, list briefly what you covered.  Do not fix anything.
